@@ -69,7 +69,7 @@ theorem okGE_call_inv (sp ty base args sw) (h : Frag.okGE (.call sp ty base args
     · simp [Frag.okGE] at h
 
 /-- Expressions. -/
-theorem pe_step (G : GCtx) (hG : G.OK) (n : Nat) (hPE : ∀ m, m ≤ n → PE G m)
+theorem pe_step (G : GCtx) (hG : G.OK') (n : Nat) (hPE : ∀ m, m ≤ n → PE G m)
     (hPArgs : ∀ m, m ≤ n → PArgs G m) (hPCall : ∀ m, m ≤ n → PCall G m) : PE G (n + 1) := by
   intro A hA e st ip stk mem lm scopes vm hok hws hT hpl hrel hsp
   have hws' := hws
@@ -114,8 +114,8 @@ theorem pe_step (G : GCtx) (hG : G.OK) (n : Nat) (hPE : ∀ m, m ≤ n → PE G 
           obtain ⟨w, rfl⟩ := preOp_error hpo
           trivial
         | ok v =>
-          refine ⟨hfr, mem1, (hrun.trans (Runs.of_runsTo (RunsTo.of_exec1 (fun k =>
-            reach_pre G.code G.lim (baseOf G.s A.fn A.rest A.mp st1.world) _ k stk mem1 ⟨A.fn, 0⟩ A.rest A.c rfl
+          refine ⟨hfr, mem1, (hrun.trans (Runs.of_runsTo (fr := G.fr) (fun it_ => RunsTo.of_exec1 (fun k =>
+            reach_pre G.code G.lim (baseOf (withIt G.s it_) A.fn A.rest A.mp st1.world) _ k stk mem1 ⟨A.fn, 0⟩ A.rest A.c rfl
               hA.code op sp A.lab A.σ a v none hi hpo)))).cast ?_, hml⟩
           omega
     case «infix» sp ty op l r =>
@@ -154,7 +154,7 @@ theorem pe_step (G : GCtx) (hG : G.OK) (n : Nat) (hPE : ∀ m, m ≤ n → PE G 
         simp only []
         have hsp1 := hsp.world st1 hfr1
         have hrel1 : StRel G.mod A.T A.N A.σ G.lim A.mp scopes vm st1.scopes mem1 := by
-          rw [hfr1]; exact hrel.memLe hml1
+          rw [hfr1]; exact hrel.memLe hml1.cells
         have h2 := ihn A hA r st1 (ip + nI CA.1) (⟨a, none⟩ :: stk) mem1 CA.2 scopes vm hr hwr hTr (hCB ▸ hpB)
           hrel1 hsp1
         rw [hCB] at h2
@@ -167,7 +167,8 @@ theorem pe_step (G : GCtx) (hG : G.OK) (n : Nat) (hPE : ∀ m, m ≤ n → PE G 
           simp only []
           have hrun12 := (hrun1.trans hrun2).cast (Nat.add_assoc ip _ _)
           have hsp2 := hsp1.world st2 hfr2
-          have ha := exec_arith G.code G.lim (baseOf G.s A.fn A.rest A.mp st2.world) ⟨A.fn, 0⟩ A.rest A.c A.σ A.lab
+          have ha := fun it_ => exec_arith G.code G.lim (baseOf (withIt G.s it_) A.fn A.rest A.mp st2.world) ⟨A.fn, 0⟩
+            A.rest A.c A.σ A.lab
             rfl hA.code op sp a b none none st2 (ip + (nI CA.1 + nI CB.1)) stk mem2 hlog
             (by simpa [nI_append] using hY) rfl
           rcases hb : binOp op a b sp st2 with ⟨rb, st3⟩
@@ -175,7 +176,7 @@ theorem pe_step (G : GCtx) (hG : G.OK) (n : Nat) (hPE : ∀ m, m ≤ n → PE G 
             have := (binOp_heapOnly op a b sp).state st2
             rw [hb] at this; exact this
           subst hst3
-          rw [hb] at ha
+          simp only [hb] at ha
           have hfr : st3 = { st with out := st3.out, heap := st3.heap } := by rw [hfr2, hfr1]
           cases rb with
           | ok v =>
@@ -183,7 +184,7 @@ theorem pe_step (G : GCtx) (hG : G.OK) (n : Nat) (hPE : ∀ m, m ≤ n → PE G 
             refine ⟨hfr, mem2, (hrun12.trans (Runs.of_runsTo ha)).cast ?_, hml1.trans hml2⟩
             simp only [nI_append]; omega
           | error cb =>
-            cases cb <;> first | trivial | exact ha.elim | skip
+            cases cb <;> first | trivial | exact (ha ⟨[], 0⟩).elim | skip
             intro _
             exact hrun12.fatal (RunsF.of_runsFatal ha)
     case ifE sp ty cnd t el =>
@@ -244,16 +245,16 @@ theorem pe_step (G : GCtx) (hG : G.OK) (n : Nat) (hPE : ∀ m, m ≤ n → PE G 
           obtain ⟨hfr1, mem1, hrun, hml1⟩ := h1
           have hsp1 := hsp.world st1 hfr1
           have hrel1 : StRel G.mod A.T A.N A.σ G.lim A.mp scopes vm st1.scopes mem1 := by
-            rw [hfr1]; exact hrel.memLe hml1
+            rw [hfr1]; exact hrel.memLe hml1.cells
           cases a <;> try trivial
           rename_i bv
-          have hjif := Runs.of_runsTo (RunsTo.of_exec1 (fun k =>
-            reach_jumpIfFalse G.code G.lim (baseOf G.s A.fn A.rest A.mp st1.world) _ k stk mem1 ⟨A.fn, 0⟩ A.rest A.c
+          have hjif := Runs.of_runsTo (fr := G.fr) (fun it_ => RunsTo.of_exec1 (fun k =>
+            reach_jumpIfFalse G.code G.lim (baseOf (withIt G.s it_) A.fn A.rest A.mp st1.world) _ k stk mem1 ⟨A.fn, 0⟩ A.rest A.c
               rfl hA.code (A.lab els.1) sp bv none ijif))
           cases bv with
           | true =>
             simp only []
-            have hpre : Runs G.code G.lim G.s A.fn A.rest A.mp ip stk mem st.world (ip + (nI C.1 + 1)) stk mem1 st1.world :=
+            have hpre : Runs G.fr G.code G.lim G.s A.fn A.rest A.mp ip stk mem st.world (ip + (nI C.1 + 1)) stk mem1 st1.world :=
               (hrun.trans hjif).cast (by simp only [if_true]; omega)
             have h2 := hPGB A hA t st1 (ip + (nI C.1 + 1)) stk mem1 els.2 scopes vm ht hres.2.1 hcalls.2.1 hTt
               (hTb ▸ hpT) hrel1 hsp1
@@ -264,14 +265,14 @@ theorem pe_step (G : GCtx) (hG : G.OK) (n : Nat) (hPE : ∀ m, m ≤ n → PE G 
             | error c2 => exact SimGE.error_after _ [] hpre hfr1 hml1 h2
             | ok v =>
               obtain ⟨hfr2, mem2, hrun2, hml2⟩ := h2
-              refine ⟨by rw [hfr2, hfr1], mem2, ((hpre.trans hrun2).trans (Runs.of_runsTo (RunsTo.of_exec1 (fun k =>
-                reach_jump G.code G.lim (baseOf G.s A.fn A.rest A.mp st2.world) _ k _ mem2 ⟨A.fn, 0⟩ A.rest A.c rfl
+              refine ⟨by rw [hfr2, hfr1], mem2, ((hpre.trans hrun2).trans (Runs.of_runsTo (fr := G.fr) (fun it_ => RunsTo.of_exec1 (fun k =>
+                reach_jump G.code G.lim (baseOf (withIt G.s it_) A.fn A.rest A.mp st2.world) _ k _ mem2 ⟨A.fn, 0⟩ A.rest A.c rfl
                   hA.code (A.lab aft.1) sp (by rw [← Nat.add_assoc] at ijmp ⊢; exact ijmp))))).cast ?_,
                 hml1.trans hml2⟩
               omega
           | false =>
             simp only []
-            have hpre : Runs G.code G.lim G.s A.fn A.rest A.mp ip stk mem st.world
+            have hpre : Runs G.fr G.code G.lim G.s A.fn A.rest A.mp ip stk mem st.world
                 (ip + (nI C.1 + 1 + nI Tb.1 + 1)) stk mem1 st1.world :=
               (hrun.trans hjif).cast (by simp only [Bool.false_eq_true, if_false]; omega)
             have h2 := hPGB A hA eb st1 (ip + (nI C.1 + 1 + nI Tb.1 + 1)) stk mem1 Tb.2 scopes vm he hres.2.2
@@ -297,7 +298,7 @@ theorem pe_step (G : GCtx) (hG : G.OK) (n : Nat) (hPE : ∀ m, m ≤ n → PE G 
       | none => simp [hφ] at hφn
       | some fm =>
       obtain ⟨rfl, hK, fd, hfind, hresolve⟩ := hA.phi name fm hφ
-      obtain ⟨I, stmts, e', hFn⟩ := hG.prog name fd hK hfind
+      obtain ⟨I, stmts, e', hFn, hgh⟩ := hG.prog name fd hK hfind
       simp only [cgE, hφ, Option.getD_some] at hpl ⊢
       generalize hCA : cgArgs G.mod (ρS scopes) A.φ args lm = CA at hpl ⊢
       obtain ⟨hplA, hplC⟩ := hpl.append
@@ -345,7 +346,7 @@ theorem pe_step (G : GCtx) (hG : G.OK) (n : Nat) (hPE : ∀ m, m ≤ n → PE G 
           simp only []
           have hsp1 := hsp.world st1 hfr1
           rw [applyFn_fn _ _ _ _ _ _ _ fd hfind]
-          have h2 := hPCall a (by omega) name fd I stmts e' hK hfind hFn sp vals st1
+          have h2 := hPCall a (by omega) name fd I stmts e' hK hfind hFn hgh sp vals st1
             (⟨A.fn, ip + nI CA.1 + 1⟩ :: A.rest) A.mp stk mem1 hsp1 (by have := hA.lo; omega)
           rcases hcb : callBody G.cfg a sp G.mod fd.params fd.body vals st1 with ⟨r2, st2⟩
           rw [hcb] at h2
@@ -426,7 +427,7 @@ theorem pe_step (G : GCtx) (hG : G.OK) (n : Nat) (hPE : ∀ m, m ≤ n → PE G 
         simp only []
         have hsp1 := hsp.world st1 hfr1
         have hrel1 : StRel G.mod A.T A.N A.σ G.lim A.mp scopes vm st1.scopes mem1 := by
-          rw [hfr1]; exact hrel.memLe hml1
+          rw [hfr1]; exact hrel.memLe hml1.cells
         have htest := armTests_run G A hA sp ⟨cv, none⟩ stk mem1 st1.world arms aft.2 (ip + nI CC.1) hlit
           (hTs ▸ hplT)
         rw [hTs] at htest
@@ -442,10 +443,10 @@ theorem pe_step (G : GCtx) (hG : G.OK) (n : Nat) (hPE : ∀ m, m ≤ n → PE G 
           have ha : a ∈ arms := List.mem_of_getElem? hi
           obtain ⟨lmi, idr, hplA, ijmp⟩ := cgArms_at A G.mod (ρS scopes) A.φ sp aft.1 arms ts.2.1 dfl.2 _ hlen
             (hBs ▸ hplB) i a nm hi hnm
-          have hdrop := Runs.of_runsTo (RunsTo.of_exec1 (fun k => reach_drop G.code G.lim
-            (baseOf G.s A.fn A.rest A.mp st1.world) (A.lab nm) k stk mem1 ⟨A.fn, 0⟩ A.rest A.c rfl hA.code sp ⟨cv, none⟩
+          have hdrop := Runs.of_runsTo (fr := G.fr) (fun it_ => RunsTo.of_exec1 (fun k => reach_drop G.code G.lim
+            (baseOf (withIt G.s it_) A.fn A.rest A.mp st1.world) (A.lab nm) k stk mem1 ⟨A.fn, 0⟩ A.rest A.c rfl hA.code sp ⟨cv, none⟩
             idr))
-          have hpre : Runs G.code G.lim G.s A.fn A.rest A.mp ip stk mem st.world (A.lab nm + 1) stk mem1 st1.world :=
+          have hpre : Runs G.fr G.code G.lim G.s A.fn A.rest A.mp ip stk mem st.world (A.lab nm + 1) stk mem1 st1.world :=
             (hrun1.trans hrunT).trans hdrop
           have h2 := hPE f' (by omega) A hA a.2 st1 (A.lab nm + 1) stk mem1 lmi scopes vm
             (okGArms_mem arms harms a ha).2 (wsGArms_mem scopes A.φ arms hva hca a ha) (hTa a ha) hplA hrel1 hsp1
@@ -455,8 +456,8 @@ theorem pe_step (G : GCtx) (hG : G.OK) (n : Nat) (hPE : ∀ m, m ≤ n → PE G 
           | error c2 => exact SimGE.error_after _ [] hpre hfr1 hml1 h2
           | ok v =>
             obtain ⟨hfr2, mem2, hrun2, hml2⟩ := h2
-            have hj := Runs.of_runsTo (RunsTo.of_exec1 (fun k => reach_jump G.code G.lim
-              (baseOf G.s A.fn A.rest A.mp st2.world) _ k (⟨v, none⟩ :: stk) mem2 ⟨A.fn, 0⟩ A.rest A.c rfl hA.code
+            have hj := Runs.of_runsTo (fr := G.fr) (fun it_ => RunsTo.of_exec1 (fun k => reach_jump G.code G.lim
+              (baseOf (withIt G.s it_) A.fn A.rest A.mp st2.world) _ k (⟨v, none⟩ :: stk) mem2 ⟨A.fn, 0⟩ A.rest A.c rfl hA.code
               (A.lab aft.1) sp ijmp))
             exact ⟨frame_trans hfr1 hfr2, mem2, ((hpre.trans hrun2).trans hj).cast (by rw [eaft]; omega),
               hml1.trans hml2⟩
@@ -464,13 +465,13 @@ theorem pe_step (G : GCtx) (hG : G.OK) (n : Nat) (hPE : ∀ m, m ≤ n → PE G 
           rw [h]
           have hh' : armsHit st1.world.heap cv arms = some none := hh
           rw [hh'] at htest
-          have hjd := Runs.of_runsTo (RunsTo.of_exec1 (fun k => reach_jump G.code G.lim
-            (baseOf G.s A.fn A.rest A.mp st1.world) _ k (⟨cv, none⟩ :: stk) mem1 ⟨A.fn, 0⟩ A.rest A.c rfl hA.code
+          have hjd := Runs.of_runsTo (fr := G.fr) (fun it_ => RunsTo.of_exec1 (fun k => reach_jump G.code G.lim
+            (baseOf (withIt G.s it_) A.fn A.rest A.mp st1.world) _ k (⟨cv, none⟩ :: stk) mem1 ⟨A.fn, 0⟩ A.rest A.c rfl hA.code
             (A.lab dfl.1) sp ijd))
-          have hdrop := Runs.of_runsTo (RunsTo.of_exec1 (fun k => reach_drop G.code G.lim
-            (baseOf G.s A.fn A.rest A.mp st1.world) (A.lab dfl.1) k stk mem1 ⟨A.fn, 0⟩ A.rest A.c rfl hA.code sp
+          have hdrop := Runs.of_runsTo (fr := G.fr) (fun it_ => RunsTo.of_exec1 (fun k => reach_drop G.code G.lim
+            (baseOf (withIt G.s it_) A.fn A.rest A.mp st1.world) (A.lab dfl.1) k stk mem1 ⟨A.fn, 0⟩ A.rest A.c rfl hA.code sp
             ⟨cv, none⟩ (by rw [edfl]; exact idrop)))
-          have hpre : Runs G.code G.lim G.s A.fn A.rest A.mp ip stk mem st.world
+          have hpre : Runs G.fr G.code G.lim G.s A.fn A.rest A.mp ip stk mem st.world
               (ip + nI CC.1 + nI ts.1 + 1 + nI bs.1 + 1) stk mem1 st1.world :=
             (((hrun1.trans htest).trans hjd).trans hdrop).cast (by rw [edfl])
           have h2 := hPE f' (by omega) A hA d st1 (ip + nI CC.1 + nI ts.1 + 1 + nI bs.1 + 1) stk mem1 bs.2 scopes vm hd
@@ -482,8 +483,8 @@ theorem pe_step (G : GCtx) (hG : G.OK) (n : Nat) (hPE : ∀ m, m ≤ n → PE G 
           | error c2 => exact SimGE.error_after _ [] hpre hfr1 hml1 h2
           | ok v =>
             obtain ⟨hfr2, mem2, hrun2, hml2⟩ := h2
-            have hj := Runs.of_runsTo (RunsTo.of_exec1 (fun k => reach_jump G.code G.lim
-              (baseOf G.s A.fn A.rest A.mp st2.world) _ k (⟨v, none⟩ :: stk) mem2 ⟨A.fn, 0⟩ A.rest A.c rfl hA.code
+            have hj := Runs.of_runsTo (fr := G.fr) (fun it_ => RunsTo.of_exec1 (fun k => reach_jump G.code G.lim
+              (baseOf (withIt G.s it_) A.fn A.rest A.mp st2.world) _ k (⟨v, none⟩ :: stk) mem2 ⟨A.fn, 0⟩ A.rest A.c rfl hA.code
               (A.lab aft.1) sp ija))
             exact ⟨frame_trans hfr1 hfr2, mem2, ((hpre.trans hrun2).trans hj).cast (by rw [eaft]; omega),
               hml1.trans hml2⟩
